@@ -2484,7 +2484,7 @@ def run_validation(ctx):
         ok = any(st.startswith('err:' + e.__name__ + ':') for e in exc)
         if not ok:
             ctx.violation('validation ' + nm, 'expected {} but got {}{}'.format(
-                '/'.join(e.__name__ for e in exc), st[:300], '' if st != 'ok' else ' -> ' + repr(r)[:200]),
+                '/'.join(e.__name__ for e in exc), st[:300], '' if st != 'ok' else ' -> ' + str(guarded(lambda: repr(r))[1])[:200]),
                 {'kind': 'validation', 'name': nm})
 
 
@@ -2574,6 +2574,51 @@ def run_accessors(ctx, specs):
         ctx.violation('accessors none-defaults', msg, {'kind': 'accessors-none'})
 
 
+def run_getitem_fan(ctx, specs):
+    """round 5: FanBeamGeometry constructor + __getitem__ against the model fanCtor / fanGetitem (the
+    vectors the slice is built from: normalised src_to_det_init, given or re-derived detector axis,
+    translation, radii, check_bounds), on top of the getitem oracle stream"""
+    cases, lines = [], []
+    for s in specs:
+        if s['cls'] != 'fan' or s['how'] != 'ctor' or s.get('ndarray_args'):
+            continue
+        st, g = guarded(lambda: build(s))
+        if st != 'ok':
+            continue
+        st, sl = guarded(lambda: g[1:4])
+        desc = {'kind': 'getitem', 'spec': jsonable_spec(s), 'slice': '1:4'}
+        if st != 'ok':
+            ctx.violation('getitem fan raises', st, desc)
+            continue
+        given = s.get('s2d', [0.0, 1.0])
+        lines.append('fangetitem s2d={} axis={} t={} rs={} rd={} cb={}'.format(
+            vec(given), vec(s['axis_init']) if 'axis_init' in s else 'none', vec(g.translation),
+            fs(g.src_radius), fs(g.det_radius), 'false' if s.get('cb0') else 'true'))
+        cases.append((s, g, sl, desc))
+    for (s, g, sl, desc), ans in zip(cases, core.run_driver('C19', lines)):
+        ctx.case(variant_sig(s['cls'], s['how'], s['variant']) + ('getitem-fan-model',))
+        ctx.hit('getitem/model/fan/' + ('axis-given' if 'axis_init' in s else 'axis-derived'))
+        if 'delta' in s:
+            ctx.hit('getitem/model/fan/near-default')
+
+        def state(x):
+            return (np.asarray(x.src_to_det_init, dtype=float), np.asarray(x.detector.axis, dtype=float),
+                    np.asarray(x.translation, dtype=float), float(x.src_radius), float(x.det_radius),
+                    bool(x.check_bounds))
+        st, (sg, ss) = guarded(lambda: (state(g), state(sl)))
+        toks = dict(t.split('=', 1) for t in ans.split()[1:]) if ans.startswith('ok') else {}
+
+        def same(real, tok):
+            f = tok.split('|')
+            if len(f) != 6:
+                return False
+            return (close(real[0], core.pfl(f[0]), 4e-12) and close(real[1], core.pfl(f[1]), 4e-12)
+                    and close(real[2], core.pfl(f[2]), 0) and real[3] == float(Fraction(f[3]))
+                    and real[4] == float(Fraction(f[4])) and real[5] == (f[5] == 'true'))
+        if st != 'ok' or not toks or not same(sg, toks.get('geom', '')) or not same(ss, toks.get('slice', '')):
+            ctx.disagree(desc, str((sg, ss))[:600] if st == 'ok' else st, ans, stream='getitem-fan-model')
+
+
 def stream(ctx, name, f, *a):
     """A stream must never take the harness down: an exception escaping the guarded calls
     (possible only when the real code returns something of an unexpected kind) is reported
@@ -2615,6 +2660,7 @@ def run(ctx):
     stream(ctx, 'astra-vecs', run_astra_vecs, specs)
     stream(ctx, 'validation', run_validation)
     stream(ctx, 'accessors', run_accessors, specs)
+    stream(ctx, 'getitem-fan-model', run_getitem_fan, specs)
     unhit = [b for b in MODEL_BRANCHES if not ctx.branches.get(b)]
     ctx.extra['unhit_model_branches'] = unhit
     if unhit:
@@ -2663,7 +2709,8 @@ MODEL_BRANCHES = (
     + ['validation/' + c for c in ('fan', 'cone', 'par2', 'par3a', 'par3e', 'factory', 'geometry', 'detector',
                                    'flat1d', 'flat2d', 'circ', 'cyl', 'sph', 'utility')]
     + ['accessors/' + c for c in ('par2', 'par3a', 'par3e', 'fan', 'cone', 'check_bounds=False-outside',
-                                  'none-defaults')])
+                                  'none-defaults')]
+    + ['getitem/model/fan/axis-given', 'getitem/model/fan/axis-derived', 'getitem/model/fan/near-default'])
 
 
 def search(ctx, broken):
@@ -2686,6 +2733,7 @@ def search(ctx, broken):
         stream(ctx, 'astra-vecs', run_astra_vecs, specs)
         stream(ctx, 'validation', run_validation)
         stream(ctx, 'accessors', run_accessors, specs)
+        stream(ctx, 'getitem-fan-model', run_getitem_fan, specs)
     finally:
         real.tier = saved
 
